@@ -1447,18 +1447,24 @@ impl<'a> Gen<'a> {
             let n = if self.cfg.emph == Emph::Fn { 2 + self.rng.usize(2) } else { 1 + self.rng.usize(3) };
             for i in 0..n {
                 // names that differ only in the type sigil are different functions
-                let same_base = self.rng.pct(35);
-                let (fname, ret) = match i {
-                    0 => ("A", Ty::Sng),
-                    1 => {
-                        if self.cfg.strings {
-                            (if same_base { "A$" } else { "B$" }, Ty::Str)
-                        } else {
-                            ("B", Ty::Sng)
-                        }
-                    }
-                    _ => (if same_base { "A%" } else { "C%" }, Ty::Int),
+                let pool: &[(&str, Ty)] = if self.rng.pct(40) {
+                    &[("A%", Ty::Int), ("A", Ty::Sng), ("A$", Ty::Str), ("A!", Ty::Sng)]
+                } else {
+                    &[("A", Ty::Sng), ("B$", Ty::Str), ("C%", Ty::Int), ("B", Ty::Sng)]
                 };
+                let mut pick = pool[i % pool.len()];
+                if pool[0].0 == "A%" && self.rng.pct(50) {
+                    pick = pool[self.rng.usize(pool.len())];
+                }
+                if pick.1 == Ty::Str && !self.cfg.strings {
+                    pick = ("B", Ty::Sng);
+                }
+                // the same spelling is defined once only (A and A! are the same function)
+                let clash = |a: &str, b: &str| a == b || (a.trim_end_matches('!') == b.trim_end_matches('!') && !a.ends_with(['%', '$', '#']) && !b.ends_with(['%', '$', '#']));
+                if self.fns.iter().any(|f| clash(&f.0.text(), pick.0)) {
+                    continue;
+                }
+                let (fname, ret) = pick;
                 let np = 1 + self.rng.usize(3);
                 let mut params = vec![];
                 let mut ptys = vec![];
